@@ -567,16 +567,32 @@ Qed.
 
 (* ---- shiftXML --------------------------------------------------------------------------------------- *)
 Lemma xml_loop_spec raw z : lx_wf z -> forall fuel, (Z.to_nat (lx_len z - lpos z) < fuel)%nat ->
-  forall it q, safe (loop fuel (xml_body raw) (z, it, q)) (sum_adv z).
+  forall it q sk, safe (loop fuel (xml_body raw) (z, it, q, sk)) (sum_adv z).
 Proof.
-  intros Hw fuel Hf it0 q.
-  apply (safe_cloop (fun s : lx * bool * Z => fst (fst s)) z (fun _ => True)); [|apply adv_refl, Hw|exact I|exact Hf].
-  intros [[s it] q0] Ha _. cbn [fst] in *. unfold xml_body.
+  intros Hw fuel Hf it0 q sk0.
+  apply (safe_cloop (fun s : lx * bool * Z * Z => fst (fst (fst s))) z (fun _ => True)); [|apply adv_refl, Hw|exact I|exact Hf].
+  intros [[[s it] q0] sk] Ha _. cbn [fst] in *. unfold xml_body.
   assert (Hws : lx_wf s) by eauto using adv_wf.
   peek0 s c Hc Hp.
-  assert (Hstep : forall (it' : bool) (q' : Z), (c =? 0) = false ->
-            adv z (fst (fst (mv s 1, it', q'))) /\ lpos s < lpos (fst (fst (mv s 1, it', q'))) /\ True).
-  { intros it' q' E0. cbn [fst]. split; [apply (adv_mv_nz z s 0 c); try assumption; nz || lia|split; [cbn; lia|exact I]]. }
+  (* a step of n >= 1 bytes that stay inside the input *)
+  assert (Hmove : forall n (it' : bool) (q' sk' : Z), 1 <= n -> lpos s + n <= lx_len s ->
+            adv z (fst (fst (fst (mv s n, it', q', sk')))) /\ lpos s < lpos (fst (fst (fst (mv s n, it', q', sk')))) /\ True).
+  { intros n it' q' sk' Hn Hle. cbn [fst]. split; [apply adv_mv'; [exact Ha|lia|exact Hle]|split; [cbn; lia|exact I]]. }
+  assert (Hstep : forall (it' : bool) (q' sk' : Z), (c =? 0) = false ->
+            adv z (fst (fst (fst (mv s 1, it', q', sk')))) /\ lpos s < lpos (fst (fst (fst (mv s 1, it', q', sk')))) /\ True).
+  { intros it' q' sk' E0. apply Hmove; [lia|]. pose proof (pk_nz_lt s 0 c Hws Hp ltac:(nz)). lia. }
+  destruct (negb (sk =? 0) && negb (c =? 0)) eqn:Esk.
+  { apply andb_true_iff in Esk. destruct Esk as [_ Esk]. apply negb_true_iff in Esk.
+    assert (Hat : forall pat, nz_list pat -> safe (at_ s pat) (fun b => b = true -> lpos s + len pat <= lx_len s)) by (intros pat Hn; apply at_spec; assumption).
+    eapply safe_bind.
+    { instantiate (1 := fun b => b = true -> lpos s + 3 <= lx_len s).
+      destruct (sk =? 1); [apply (Hat [45; 45; 62]); repeat constructor; lia|].
+      destruct (sk =? 2); [apply (Hat [93; 93; 62]); repeat constructor; lia|]. cbn. discriminate. }
+    cbn beta. intros a Ha3. destruct a; [cbn [safe]; apply Hmove; [lia|apply Ha3; reflexivity]|].
+    eapply safe_bind.
+    { instantiate (1 := fun b => b = true -> lpos s + 2 <= lx_len s).
+      destruct (sk =? 3); [apply (Hat [63; 62]); repeat constructor; lia|]. cbn. discriminate. }
+    cbn beta. intros b Hb2. destruct b; cbn [safe]; [apply Hmove; [lia|apply Hb2; reflexivity]|apply Hstep; exact Esk]. }
   destruct (negb (q0 =? 0) && negb (c =? 0)) eqn:Eq.
   { cbn [safe]. apply Hstep. apply andb_true_iff in Eq. destruct Eq as [_ Eq]. apply negb_true_iff in Eq. exact Eq. }
   destruct (it && negb (c =? 0)) eqn:Ei.
@@ -584,7 +600,13 @@ Proof.
   destruct (c =? 60) eqn:E60.
   { peek1 s c Hp c1 Hc1 Hp1.
     destruct (negb (c1 =? 47)) eqn:E47.
-    { cbn [safe]. apply Hstep. b2p. subst c. reflexivity. }
+    { assert (Hc0 : (c =? 0) = false) by (b2p; subst c; reflexivity).
+      eapply safe_bind; [apply (at_spec s [60; 33; 45; 45] Hws); repeat constructor; lia|]. cbn beta. intros a1 Ha1.
+      destruct a1; [cbn [safe]; apply Hmove; [lia|apply Ha1; reflexivity]|].
+      eapply safe_bind; [apply (at_spec s [60; 33; 91; 67; 68; 65; 84; 65; 91] Hws); repeat constructor; lia|]. cbn beta. intros a2 Ha2.
+      destruct a2; [cbn [safe]; apply Hmove; [lia|apply Ha2; reflexivity]|].
+      destruct (c1 =? 63) eqn:E63; cbn [safe]; [|apply Hstep; exact Hc0].
+      apply Hmove; [lia|]. pose proof (pk_nz_lt s 1 c1 Hws Hp1 ltac:(nz)). lia. }
     apply negb_false_iff in E47.
     assert (He2 : lpos s + 2 <= lx_len s) by (pose proof (pk_nz_lt s 1 c1 Hws Hp1 ltac:(nz)); lia).
     assert (Hm2 : adv z (mv s 2)) by (apply adv_mv'; [exact Ha|lia|lia]).
@@ -597,7 +619,7 @@ Proof.
     destruct (h =? raw); cbn [safe fst sum_adv]; [eauto using adv_trans|].
     split; [eauto using adv_trans|split; [lia|exact I]]. }
   destruct (c =? 0) eqn:E0; cbn [safe fst sum_adv]; [exact Ha|].
-  apply (Hstep it q0). reflexivity.
+  apply (Hstep it q0 sk). reflexivity.
 Qed.
 
 Lemma xml_close_loop_spec z : lx_wf z -> forall fuel, (Z.to_nat (lx_len z - lpos z) < fuel)%nat ->
